@@ -17,7 +17,10 @@ import (
 type Map struct {
 	isCaseSensitive bool
 	data            map[string][]keyValue
-	variable        variables.RuleVariable
+	// keys holds the keys of data in insertion order, so that iterating the
+	// collection does not depend on the runtime's randomized map order.
+	keys     []string
+	variable variables.RuleVariable
 }
 
 var _ collection.Map = &Map{}
@@ -63,8 +66,9 @@ func (c *Map) FindRegex(key *regexp.Regexp) []types.MatchData {
 	n := 0
 	// Collect matching data slices in a single pass to avoid evaluating the regex twice per key.
 	var matched [][]keyValue
-	for k, data := range c.data {
+	for _, k := range c.keys {
 		if key.MatchString(k) {
+			data := c.data[k]
 			n += len(data)
 			matched = append(matched, data)
 		}
@@ -120,8 +124,8 @@ func (c *Map) FindString(key string) []types.MatchData {
 // FindAll returns all map elements.
 func (c *Map) FindAll() []types.MatchData {
 	n := 0
-	for _, data := range c.data {
-		n += len(data)
+	for _, k := range c.keys {
+		n += len(c.data[k])
 	}
 	if n == 0 {
 		return nil
@@ -129,8 +133,8 @@ func (c *Map) FindAll() []types.MatchData {
 	buf := make([]corazarules.MatchData, n)
 	result := make([]types.MatchData, n)
 	i := 0
-	for _, data := range c.data {
-		for _, d := range data {
+	for _, k := range c.keys {
+		for _, d := range c.data[k] {
 			buf[i] = corazarules.MatchData{
 				Variable_: c.variable,
 				Key_:      d.key,
@@ -149,6 +153,9 @@ func (c *Map) Add(key string, value string) {
 	if !c.isCaseSensitive {
 		key = strings.ToLower(key)
 	}
+	if _, exists := c.data[key]; !exists {
+		c.keys = append(c.keys, key)
+	}
 	c.data[key] = append(c.data[key], aVal)
 }
 
@@ -159,6 +166,9 @@ func (c *Map) Set(key string, values []string) {
 		key = strings.ToLower(key)
 	}
 	dataSlice, exists := c.data[key]
+	if !exists {
+		c.keys = append(c.keys, key)
+	}
 	if !exists || cap(dataSlice) < len(values) {
 		dataSlice = make([]keyValue, len(values))
 	} else {
@@ -176,7 +186,10 @@ func (c *Map) SetIndex(key string, index int, value string) {
 	if !c.isCaseSensitive {
 		key = strings.ToLower(key)
 	}
-	values := c.data[key]
+	values, exists := c.data[key]
+	if !exists {
+		c.keys = append(c.keys, key)
+	}
 	av := keyValue{key: originalKey, value: value}
 
 	switch {
@@ -197,7 +210,16 @@ func (c *Map) Remove(key string) {
 	if len(c.data) == 0 {
 		return
 	}
+	if _, exists := c.data[key]; !exists {
+		return
+	}
 	delete(c.data, key)
+	for i, k := range c.keys {
+		if k == key {
+			c.keys = append(c.keys[:i], c.keys[i+1:]...)
+			break
+		}
+	}
 }
 
 // Name returns the name of the map/collection.
@@ -210,13 +232,15 @@ func (c *Map) Reset() {
 	for k := range c.data {
 		delete(c.data, k)
 	}
+	c.keys = c.keys[:0]
 }
 
 // Format updates the passed strings.Builder with the formatted map key/values.
 func (c *Map) Format(res *strings.Builder) {
 	res.WriteString(c.variable.Name())
 	res.WriteString(":\n")
-	for k, v := range c.data {
+	for _, k := range c.keys {
+		v := c.data[k]
 		res.WriteString("    ")
 		res.WriteString(k)
 		res.WriteString(": ")
